@@ -77,6 +77,9 @@ func RunPlan(t *testing.T, sim Sim, p *Plan, verbose bool) *Result {
 	res := env.Result()
 	res.SimSeconds = simSecs
 	res.Infra = infra
+	if res.Infra == "" {
+		res.Infra = env.infra
+	}
 	if verbose {
 		for _, l := range env.Trace {
 			fmt.Println("  | " + l)
